@@ -24,6 +24,7 @@ type Scope struct {
 	NotLit    bool
 	CapHeavy  bool // bias towards captures under alternation/optional groups
 	GlobalCaps bool // captures inside `set ... to pattern` bodies (bound at run time like any other)
+	EmptyLit bool // the empty string literal '' (matches without consuming)
 	MultiByteItems bool // string items of more than one byte in `in` lists (order becomes observable)
 	NoNullableLoopBody bool
 }
@@ -31,7 +32,7 @@ type Scope struct {
 var DefaultScope = Scope{
 	Alpha: "ab", MaxDepth: 3, MaxItems: 3,
 	Captures: true, BackRefs: true, Subs: true, Globals: true, Preds: true,
-	Anchors: true, WordAnch: true, Classes: true, Lists: true, Lazy: true, Caseless: true, NotLit: true, MultiByteItems: true,
+	Anchors: true, WordAnch: true, Classes: true, Lists: true, Lazy: true, Caseless: true, NotLit: true, MultiByteItems: true, EmptyLit: true,
 }
 
 // PG is the state of one program generation.
@@ -66,6 +67,9 @@ var PredLib = []Pred{
 }
 
 func (g *PG) lit() Lit {
+	if g.Sc.EmptyLit && g.R.Chance(1, 30) {
+		return Lit{S: "", Caseless: g.R.Chance(1, 4)}
+	}
 	n := 1
 	if g.R.Chance(1, 4) {
 		n = 2
@@ -121,8 +125,12 @@ func (g *PG) consumingAtom() Node {
 	if g.Sc.Classes && g.R.Chance(1, 4) {
 		return Class{Kind: classKinds[g.R.Intn(3)]}
 	}
-	l := g.lit()
-	return l
+	for {
+		l := g.lit()
+		if l.S != "" {
+			return l
+		}
+	}
 }
 
 func (g *PG) atom() Node {
